@@ -234,4 +234,18 @@ META = {
         "note": "single exporting device; byte flips in key members and truncations are only required not to panic (not listed by the statement)",
         "technique": "deterministic simulation: seeded history + archive fault injection + restore on a fresh simulated node, identity/log/digest equality",
     },
+    "C19": {
+        "text": "Seeded request sessions against a real in-process service: every method of the protocol service interface is found by "
+                "reflection and called with requests whose every field is drawn from an edge-value pool (nil/empty/short/oversized "
+                "bytes, valid keys of every kind known to the session, marshalled messages, protobuf garbage, nil sub-messages), "
+                "interleaved with deactivation and reactivation of the account group and other groups and with calls of the exported "
+                "decode/decrypt helpers on the same pool. Oracle: no call panics (recovered at the call boundary and reported with "
+                "the request history) and the process still answers afterwards.",
+        "design_ref": "section 5, C19; section 8",
+        "note": "NOT scheduler-controlled: the service runs on libp2p's in-memory mocknet with real goroutines and the real clock (it cannot "
+                "be built without a libp2p host); histories are seeded and replayable because a panic on malformed input is a "
+                "deterministic function of the request history. The two credential-flow RPCs that need an external HTTP issuer are "
+                "not called. Requests themselves are never nil.",
+        "technique": "seeded request-history exploration of a real in-process service (edge-value generator over all RPCs by reflection); simulation only of the request source and service state changes",
+    },
 }
